@@ -167,10 +167,31 @@ def run_shard(ctx):
         if ctx.shard == 0:
             ctx.sample({"cls": "Paragraph", "pieces": ["a  ", " \tb"], "how": "append"})
 
+    def long_runs(_r):
+        """blank runs around the lengths where the text:c count changes its number of digits, then one more append"""
+        k = 0
+        for n in list(range(1, 24)) + [98, 99, 100, 101, 102, 199, 200, 201, 999, 1000, 1001]:
+            for shape in ("inner", "leading", "trailing", "only"):
+                first = {"inner": "x" + " " * n + "y", "leading": " " * n + "y", "trailing": "x" + " " * n, "only": " " * n}[shape]
+                for more in (["z"], [""], [" ", "w"], ["\t"]):
+                    k += 1
+                    if k % ctx.nshards != ctx.shard:
+                        continue
+                    for cls, how in (("Paragraph", "append"), ("Header", "plain"), ("Span", "mixed")):
+                        try:
+                            check(ctx, cls, [first] + more, how)
+                        except Abandon:
+                            pass
+        ctx.count("long-run-cases", k // ctx.nshards)
+
     ctx.engine.add("enumeration")
     ctx.rounds_loop(enum)
+    ctx.rounds_loop(long_runs)
 
-    pieces = st.lists(st.lists(st.sampled_from(RICH), max_size=12).map("".join), min_size=1, max_size=6)
+    blanks = st.sampled_from([2, 3, 9, 10, 11, 12, 19, 20, 21, 99, 100, 101, 130]).map(lambda n: " " * n)
+    piece = st.one_of(st.lists(st.sampled_from(RICH), max_size=12).map("".join), st.lists(st.sampled_from(RICH), max_size=12).map("".join),
+                      st.tuples(st.sampled_from(["", "a", "\t"]), blanks, st.sampled_from(["", "b", "\n"])).map("".join))
+    pieces = st.lists(piece, min_size=1, max_size=6)
 
     hosts = st.one_of(st.none(), st.none(), st.tuples(st.sampled_from(["", "x", "x ", " "]), st.sampled_from(["", "d", "d  e", " d", "  ", "\t"])))
 
